@@ -448,6 +448,10 @@ Section Machine.
     let id := length (objs w) in
     set_slots (set_objs (set_bufs w (bufs w ++ [a])) (objs w ++ [mkObj kind b 0 None None [] false])) ((s, id) :: slots w).
 
+  (* the object made by p + delta: new memory, the attributes (`other`) of p *)
+  Definition aug_obj (w : world) (s : Z) (v : arr) (oth : option nat) : world :=
+    upd_obj (new_obj w s 1 v) (length (objs w)) (fun o' => o_set_other o' oth).
+
   Definition is_whole_2d (w : world) (o : obj) : bool :=
     (1 <=? okind o) && (oview o =? 0)
     && match fst (contents w o) with [_; n; _] => 2 <=? n | _ => false end.
@@ -493,7 +497,10 @@ Section Machine.
   | SetRow (s : Z) (v : list Z)             (* item assignment of the first position *)
   | SetOther (s : Z) (s' : option Z)        (* p.other = q / None *)
   | Slice (s : Z) (kind : Z) (s' : Z)
-  | Flood (fn : Z) (n : nat).               (* n calls with fresh arguments *)
+  | Flood (fn : Z) (n : nat)                (* n calls with fresh arguments *)
+  | Aug (sgn : Z) (s : Z) (d : arr).        (* p += delta (sgn 1) / p -= delta (sgn 2) with a PositionDelta of the same
+                                               system: the name is re-bound to the NEW object p + delta / p - delta (values
+                                               = pf 21 / 22 of the contents and the delta, attributes of p), p itself stays *)
 
   Definition with_slot (w : world) (s : Z) (f : nat -> world * obs) : world * obs :=
     match slot w s with
@@ -533,6 +540,15 @@ Section Machine.
           else (upd_obj w p (fun o' => o_set_other o' (Some y)), ok_obs)))
     | Slice s kind s' => with_slot w s (fun p => do_slice w p kind s')
     | Flood fn n => (set_lru w fn (flood n (lrus w fn)), ok_obs)
+    | Aug sgn s d =>
+        with_slot w s (fun p =>
+          let o := get_obj w p in
+          if okind o =? 1 then
+            match pf (20 + sgn) 0 [(false, contents w o); (false, d)] with
+            | None => (w, None)
+            | Some v => (aug_obj w s v (oother o), Some (v, 0))
+            end
+          else (w, invalid_obs))
     end.
 
   Fixpoint run (w : world) (ops : list op) : list obs * world :=
